@@ -53,6 +53,9 @@ class World:
         self.loop = vloop.new_loop()
         self.net = simnet.Net(self.loop)
         self.net.ctl_port = CTL_PORT
+        if c.get("v6"):  # the server's sockets report the IPv6 family (PASV then has no address to give)
+            import socket
+            self.net.force_family = socket.AF_INET6
         for p, plan in c["port_plan"].items():
             self.net.port_plan[int(p)] = list(plan) if isinstance(plan, list) else plan
         self._saved = (aioftp.server.asyncio, aioftp.client.open_connection)
